@@ -52,7 +52,7 @@ func verifObserve(label string, v uint64) {}
 		sb.WriteString("\nfunc vdoc(m map[string]any) []byte { panic(\"symbolic only\") }\n")
 	}
 	if bolt {
-		sb.WriteString("\nfunc vboltbucket(keys, vals [][]byte) *bbolt.Bucket { panic(\"symbolic only\") }\nfunc vboltdb() *bbolt.DB { panic(\"symbolic only\") }\nfunc vboltopentx(db *bbolt.DB) int { panic(\"symbolic only\") }\nfunc vboltfaults(db *bbolt.DB, on bool) {}\nfunc vscratchpath() string { return \"/scratch/backup.bbolt\" }\n")
+		sb.WriteString("\nfunc vboltbucket(keys, vals [][]byte) *bbolt.Bucket { panic(\"symbolic only\") }\nfunc vboltdb() *bbolt.DB { panic(\"symbolic only\") }\nfunc vboltopentx(db *bbolt.DB) int { panic(\"symbolic only\") }\nfunc vboltfaults(db *bbolt.DB, on bool) {}\nfunc vscratchpath() string { return \"/scratch/backup.bbolt\" }\nfunc vboltlocked(path string) bool { panic(\"symbolic only\") }\n")
 		return strings.Replace(sb.String(), "package "+pkg+"\n", "package "+pkg+"\n\nimport \"go.etcd.io/bbolt\"\n", 1)
 	}
 	return sb.String()
@@ -203,6 +203,16 @@ func vboltopentx(db *bbolt.DB) int {
 
 // environment faults (commit failure) cannot be injected into the real library
 func vboltfaults(db *bbolt.DB, on bool) {}
+
+// is the database file still held open (locked) by this process?
+func vboltlocked(path string) bool {
+	db, err := bbolt.Open(path, 0600, &bbolt.Options{Timeout: 300 * time.Millisecond})
+	if err != nil {
+		return true
+	}
+	db.Close()
+	return false
+}
 
 func vscratchpath() string {
 	f, err := os.CreateTemp("", "verifscratch")
